@@ -179,9 +179,13 @@ def _corpus_pairs(args):
 
 
 def run(tier, seed):
-    chk = Check("C07", tier, seed, "exploration")
+    chk = Check("C07", tier, seed, "other")
     ok, sites, failing = frame.rule_descflow()
     chk.add_rule("C07.S.desc_flow", ok, sites, failing)
+    from ..kernels import c07_implicit
+    from ..kernels.base import run_kernel
+    for k in c07_implicit.KERNELS:
+        chk.add_kernel(run_kernel(k, tier))
     res = run_pairs()
     n = 6 if tier == "quick" else 300
     res += [x for r in harness.pmap(_corpus_pairs, [(seed, i) for i in range(n)]) for x in r]
@@ -200,5 +204,5 @@ def run(tier, seed):
     chk.add_bounded("documented (short form, long form) pairs on identical data, 12 kinds of shorthand, 3 backends, 2 data sets; plus corpus-driven spacing / un-bracketed variants", f"{len(PAIRS)} hand-written pairs + {n} corpus chunks x 30",
                     len(res), len({(r[1]['short'], r[1]['long']) for r in res}), failures=fails, samples=[r[1] for r in res[:2]])
     chk.assumptions += ["bounded: the equivalences are evaluated on the listed pairs and corpus variants only", "Appendix A5: the description string flows only into _parse_op and Invocation (rule), so equal parse results give equal behaviour for all data"]
-    chk.explanation = "relational postcondition OP(short, X) == OP(long, X) for the twelve documented shorthand kinds; bounded exploration"
+    chk.explanation = "implicit output of element-wise operations proved from the real _parse_op region (2 and 3 inputs); relational postcondition OP(short, X) == OP(long, X) for the twelve documented shorthand kinds evaluated on a bounded set of pairs"
     return chk
